@@ -1,0 +1,66 @@
+//go:build verif
+
+package accessory
+
+// Contracts for package accessory, checked by /verif (govc). Comment-only file: it adds no declarations.
+
+// ---------------------------------------------------------------- instance ids (C14)
+// tree(a): the services of a and their characteristics are pairwise distinct, non-nil objects. It is stated with ghost
+// inverse functions: sidx(r) is the slot of service object r, owner(c)/pos(c) the service slot and position of
+// characteristic object c (the application builds accessories as trees; stated assumption).
+//@ spec func sidx(ref) int
+//@ spec func owner(ref) int
+//@ spec func pos(ref) int
+//@ pred svc(a, x) = a.Services[x]
+//@ pred chr(a, x, y) = a.Services[x].Characteristics[y]
+//@ pred tree(a) = a != nil && a.idCount >= 1 &&
+//@      forall(x, 0, len(a.Services), a.Services[x] != nil && sidx(ref(a.Services[x])) == x) &&
+//@      forall(x2, 0, len(a.Services), forall(y, 0, len(a.Services[x2].Characteristics), a.Services[x2].Characteristics[y] != nil && owner(ref(a.Services[x2].Characteristics[y])) == x2 && pos(ref(a.Services[x2].Characteristics[y])) == y))
+//@ pred insvc(a, r) = 0 <= sidx(r) && sidx(r) < len(a.Services) && ref(a.Services[sidx(r)]) == r
+//@ pred intree(a, c) = 0 <= owner(c) && owner(c) < len(a.Services) && 0 <= pos(c) && pos(c) < len(a.Services[owner(c)].Characteristics) && ref(a.Services[owner(c)].Characteristics[pos(c)]) == c
+// services with slot < i done; characteristics of services < i done, and of service i up to position < j
+//@ pred doneS(a, r, i) = insvc(a, r) && sidx(r) < i
+//@ pred doneC(a, c, i, j) = intree(a, c) && (owner(c) < i || (owner(c) == i && pos(c) < j))
+//@ pred sid(r) = at(r, "github.com/brutella/hc/service.Service").ID
+//@ pred cid(c) = at(c, "github.com/brutella/hc/characteristic.Characteristic").ID
+// every id assigned so far lies in [s0, idCount) and ids assigned so far are pairwise different
+//@ pred idsOK(a, s0, i, ci, j) = s0 >= 1 && s0 <= a.idCount &&
+//@      forallv("r:ref", doneS(a, r, i) ==> s0 <= sid(r) && sid(r) < a.idCount, sid(r)) &&
+//@      forallv("c:ref", doneC(a, c, ci, j) ==> s0 <= cid(c) && cid(c) < a.idCount, cid(c)) &&
+//@      forallv("r:ref q:ref", doneS(a, r, i) && doneS(a, q, i) && r != q ==> sid(r) != sid(q), sid(r), sid(q)) &&
+//@      forallv("c:ref d:ref", doneC(a, c, ci, j) && doneC(a, d, ci, j) && c != d ==> cid(c) != cid(d), cid(c), cid(d)) &&
+//@      forallv("c:ref r:ref", doneC(a, c, ci, j) && doneS(a, r, i) ==> cid(c) != sid(r), cid(c), sid(r))
+
+//@ func (a *Accessory) UpdateIDs()
+//@   requires tree(a)
+//@   assume nowrap
+//@   modifies a.idCount, alltype("github.com/brutella/hc/service.Service"), alltype("github.com/brutella/hc/characteristic.Characteristic")
+//@   ensures ids: idsOK(a, old(a.idCount), len(a.Services), len(a.Services), 0)
+//@   ensures shape: tree(a)
+//@   loop 0
+//@     invariant idx: 0 <= loopidx && loopidx <= len(a.Services)
+//@     invariant tree: tree(a) && unchanged(a.Services)
+//@     invariant ids: idsOK(a, old(a.idCount), loopidx, loopidx, 0)
+//@   loop 1
+//@     invariant idx: 0 <= loopidx && loopidx <= len(s.Characteristics) && 0 <= loopidx(0) && loopidx(0) < len(a.Services) && s == a.Services[loopidx(0)]
+//@     invariant tree: tree(a) && unchanged(a.Services)
+//@     invariant ids: idsOK(a, old(a.idCount), loopidx(0) + 1, loopidx(0), loopidx)
+
+// ---------------------------------------------------------------- accessory ids (C14)
+// Every accessory in the container has a non-zero id under which the id index finds exactly that accessory; hence ids
+// are pairwise different.
+//@ pred containerInv(m) = m != nil && m.as != nil && m.idCount >= 1 &&
+//@      forall(i, 0, len(m.Accessories), m.Accessories[i] != nil && m.Accessories[i].ID != 0 && m.as[m.Accessories[i].ID] == m.Accessories[i])
+
+//@ func NewContainer() (m)
+//@   ensures fresh(m) && containerInv(m) && len(m.Accessories) == 0
+
+//@ func (m *Container) AddAccessory(a) (err)
+//@   requires containerInv(m) && tree(a)
+//@   requires fresh: forall(i, 0, len(m.Accessories), m.Accessories[i] != a)
+//@   assume nowrap
+//@   modifies m.Accessories, m.idCount, m.as[:], a.ID, a.idCount, alltype("github.com/brutella/hc/service.Service"), alltype("github.com/brutella/hc/characteristic.Characteristic"), heapof("loc")
+//@   ensures inv: containerInv(m)
+//@   ensures added: err == nil ==> len(m.Accessories) == old(len(m.Accessories)) + 1 && m.Accessories[len(m.Accessories) - 1] == a && a.ID != 0
+//@   ensures others: forall(i, 0, old(len(m.Accessories)), m.Accessories[i] == old(m.Accessories[i]) && m.Accessories[i].ID == old(m.Accessories[i].ID))
+//@   ensures rejected: err != nil ==> len(m.Accessories) == old(len(m.Accessories))
